@@ -66,6 +66,10 @@ class Ctx:
             json.dump(ev, f, indent=1)
         for k in self.known:
             print(k)
+        # the generated scenarios and traces are scratch (a thorough campaign writes gigabytes);
+        # what a violation needs is in replays/
+        if not os.environ.get("VERIF_KEEP_RUN"):
+            shutil.rmtree(self.rundir, ignore_errors=True)
         if self.violations:
             for path, found in self.violations:
                 tail = "" if found else " no-failing-input-found"
